@@ -14,7 +14,7 @@ def richardson_col(f, x0, i, h):
         a = f(x)
         x.flat[i] = x0.flat[i] - hh
         b = f(x)
-        return (a - b) / (2 * hh), max(np.max(np.abs(a), initial=0.0), np.max(np.abs(b), initial=0.0))
+        return (a - b) / (2 * hh), np.maximum(np.abs(a), np.abs(b))
 
     d1, m1 = d(h)
     d2, m2 = d(h / 2)
@@ -22,10 +22,10 @@ def richardson_col(f, x0, i, h):
     r1 = (4 * d2 - d1) / 3
     r2 = (4 * d4 - d2) / 3
     R = (16 * r2 - r1) / 15
-    return R, np.abs(R - r2), max(m1, m2, m4)
+    return R, np.abs(R - r2), np.maximum(np.maximum(m1, m2), m4)
 
 
-def jacobian(f, x0, hrel=1e-3, hscale=None):
+def jacobian(f, x0, hrel=1e-3, hscale=None, noise_rel=50 * EPS):
     """dense Jacobian (value, error estimate, roundoff floor) of f at x0; step h = hrel * scale of
     the WHOLE input array (stiffness entries span 1e0..1e9)"""
     x0 = np.array(x0, dtype=float)
@@ -34,10 +34,10 @@ def jacobian(f, x0, hrel=1e-3, hscale=None):
     h = hrel * (sc if sc > 0 else 1.0)
     J = np.zeros((f0.size, x0.size))
     E = np.zeros_like(J)
-    floor = np.zeros(x0.size)
+    floor = np.zeros_like(J)  # round-off floor of the difference quotient, per entry (row = output magnitude)
     for i in range(x0.size):
         J[:, i], E[:, i], fm = richardson_col(lambda x: np.asarray(f(x), dtype=float).ravel(), x0, i, h)
-        floor[i] = 50 * EPS * fm / (h / 4)
+        floor[:, i] = noise_rel * fm / (h / 4)
     return J, E, floor, h
 
 
@@ -47,7 +47,7 @@ def compare(an, J, E, floor, rtol=1e-6):
     glob = np.abs(J).max(initial=0.0)
     S = np.maximum(S, 1e-9 * glob)
     S = np.maximum(S, 1e-300)
-    tol = rtol * S + 20 * E + floor[None, :] + 1e-14 * max(glob, 1e-300)
+    tol = rtol * S + 20 * E + (floor if np.ndim(floor) == 2 else floor[None, :]) + 1e-14 * max(glob, 1e-300)
     unrel = E > 1e-3 * S
     err = np.abs(an - J)
     bad = (err > tol) & ~unrel
